@@ -111,6 +111,8 @@ fn fam_space(f: Arc<dyn Family>, nallowed: u64) -> Box<dyn Space> {
 fn pick_allowed(k: u64, n: u64) -> usize {
     if n == 48 {
         k as usize
+    } else if n == 6 {
+        [15usize, 0, 4, 8, 16 + 15, 32 + 15][k as usize]
     } else if k < 16 {
         k as usize
     } else if k == 16 {
@@ -131,6 +133,8 @@ pub fn spaces(tier: &str) -> Vec<Box<dyn Space>> {
     v.push(fam_space(family_b_trunc(all_seeds(true, 100_000), 3), na));
     v.push(fam_space(family_b_struct(), na));
     v.push(fam_space(family_d(), na));
+    v.push(fam_space(family_e(false), if thorough { 48 } else { 6 }));
+    v.push(fam_space(family_e(true), if thorough { 48 } else { 6 }));
     // chained sequences over the full menu (including erroring packets), n <= 3 (thorough 4), 4 prior states
     let maxlen = if thorough { 4 } else { 3 };
     let nl = crate::alphabet::list_count(menu::TOTAL, maxlen);
